@@ -132,6 +132,7 @@ def class_source(name, feats, prev):
     if "peer" in feats:
         L.append("\tfn getp(self) -> Self {\n\t\treturn get self.peer\n\t}")
         L.append("\tfn link(self, x: Self) {\n\t\tself.peer = x\n\t}")
+        L.append("\tfn unlink(self) {\n\t\tself.peer = nil\n\t}")
         L.append("\tfn peern(self) -> int {\n\t\tp = get self.peer\n\t\treturn p.n\n\t}")
         L.append("\tfn bumppeer(self, d: int) -> int {\n\t\tp = get self.peer\n\t\treturn p.add(d)\n\t}")
     if "other" in feats and prev:
@@ -667,6 +668,20 @@ class Interp:
                     return False
                 em.code("%s.link(%s)" % (an, op["b"]))
                 a.peer = b
+            elif m == "unlink":
+                # an optional field that holds an object is cleared again: by a method, or from the outside
+                if "peer" not in f:
+                    return False
+                if a.peer is None and b is not None and b.cls == a.cls:
+                    em.code("%s.link(%s)" % (an, op["b"]))      # so that there is something to clear
+                    a.peer = b
+                if op.get("v", 0) % 2 or self.lib is not None:
+                    # (from an importer's side the field of an imported class has lost its `?`: `v.peer = nil` is rejected at
+                    # compile time there - a typing quirk, nothing runs wrongly - so importers clear through the method)
+                    em.code("%s.unlink()" % an)
+                else:
+                    em.code("%s.peer = nil" % an)
+                a.peer = None
             elif m == "peern":
                 if "peer" not in f or a.peer is None:
                     return False
@@ -754,7 +769,7 @@ class Interp:
 
 METHODS = ["getn", "setn", "resetn", "add", "twice", "me", "fresh", "chain", "swapn", "sets", "cat", "size", "resize", "seto",
            "clearo", "link", "peern", "bumppeer", "getpeer", "attach", "othern", "copyfrom", "copyfrom", "getme", "toggle", "toggle", "negn", "grow", "both", "drain", "chainfresh", "chainpeer", "sharexs", "sharexs",
-           "resize", "flip", "flip", "addf", "sumread", "sumread", "curadd", "curadd", "curn", "setcur", "getcur", "add2", "add2", "mkclo", "mkclo", "callclo", "callclo", "callclo", "peekpeer", "peekpeer", "peekpeer", "popfront", "popfront", "popfront", "copyxs", "copyxs", "negread", "negread", "peeris", "peeris", "peeris", "wide", "wide", "absorb", "absorb"]
+           "resize", "flip", "flip", "addf", "sumread", "sumread", "curadd", "curadd", "curn", "setcur", "getcur", "add2", "add2", "mkclo", "mkclo", "callclo", "callclo", "callclo", "peekpeer", "peekpeer", "peekpeer", "popfront", "popfront", "popfront", "copyxs", "copyxs", "negread", "negread", "peeris", "peeris", "peeris", "wide", "wide", "absorb", "absorb", "unlink", "unlink", "unlink"]
 
 
 def gen_op(rng, it):
@@ -776,7 +791,7 @@ def gen_op(rng, it):
         op["m"] = rng.choice(focus) if focus and rng.chance(3, 5) else rng.choice(METHODS)
         op["t"] = rng.choice(STRS)
         op["b"] = rng.choice(names)
-        if op["m"] in ("swapn", "link", "copyfrom", "sharexs", "curadd", "setcur", "peekpeer", "copyxs", "peeris", "absorb"):
+        if op["m"] in ("swapn", "link", "copyfrom", "sharexs", "curadd", "setcur", "peekpeer", "copyxs", "peeris", "absorb", "unlink"):
             op["b"] = rng.choice(same)
     elif kind in ("rebind", "rebindpeer"):
         op["b"] = rng.choice(same)
